@@ -388,6 +388,10 @@ func AccessPath(v ssa.Value) string {
 	return regName(v)
 }
 
+// AddrPath is the access path of an address value (exported for substitution
+// of callee parameters by caller arguments).
+func AddrPath(a ssa.Value) string { return addrPath(a) }
+
 func regName(v ssa.Value) string {
 	fn := ""
 	if v.Parent() != nil {
